@@ -10,9 +10,6 @@ scn = json.load(open(os.path.join(vlib.SPEC, "scenarios.json")))
 for s in scn:
     if names != "all" and s["name"] not in names.split(","):
         continue
-    if any(op[0] == "change" for th in s["threads"] for op in th):
-        print(s["name"], "skipped (tree changes are not in the FINE model)")
-        continue
     mod = mkmc.make(s["name"], geo)
     if not mod:
         print(s["name"], "n/a for", geo)
